@@ -24,7 +24,8 @@ Proof.
     destruct (existsb _ _); [intros [= <-]; reflexivity|discriminate].
   - unfold remove_node. destruct (get_node h n); [|intros [= <-]; reflexivity].
     destruct (existsb _ _); [intros [= <-]; reflexivity|discriminate].
-  - unfold clone. destruct (clone_nodes _ _ _ _ _ _ _) as [[[a b] c]|]; [discriminate|intros [= <-]; reflexivity].
+  - unfold clone. destruct (clone_nodes _ _ _ _ _ _ _) as [[[a b] c]|]; [|intros [= <-]; reflexivity].
+    destruct (clone_nodes _ _ _ _ _ _ _) as [[[a2 b2] c2]|]; [discriminate|intros [= <-]; reflexivity].
   - discriminate.
   - unfold roundtrip. destruct (rt_domain h); simpl; [|intros [= <-]; reflexivity].
     destruct (ser_model h); [discriminate|]. intros [= <-]. reflexivity.
@@ -306,7 +307,10 @@ Proof. vm_compute. repeat split. Qed.
 (* identity of configurations after clone: the clone registers the very same configuration objects, whatever the
    parameters, so the references of the cloned nodes stay registered *)
 Lemma clone_same_cfgs h deep allow : s_cfgs (fst (clone h deep allow)) = s_cfgs h.
-Proof. unfold clone. destruct (clone_nodes _ _ _ _ _ _ _) as [[[a b] c]|]; reflexivity. Qed.
+Proof.
+  unfold clone. destruct (clone_nodes _ _ _ _ _ _ _) as [[[a b] c]|]; [|reflexivity].
+  destruct (clone_nodes _ _ _ _ _ _ _) as [[[a2 b2] c2]|]; reflexivity.
+Qed.
 
 Lemma clone_deep_irrelevant h allow : clone h true allow = clone h false allow.
 Proof. reflexivity. Qed.
@@ -368,3 +372,16 @@ Proof.
   - apply (exec_invW h (OSetRank ex_x (Some 1))); [apply DevInv_weaken; exact Hinv | exact I].
   - vm_compute. reflexivity.
 Qed.
+
+(* cross-root use: the function node 1 reads the main-graph value a.  Model.clone raises (the function's cloner does
+   not know a); after rewiring it to the function's own input the clone succeeds *)
+Definition xr_a := mkV 0 None.
+Definition xr_f := mkV 1 None.
+Definition xr_h0 : state :=
+  mkSt [(0, [97]); (1, [102]); (2, [98]); (3, [103])]
+       [(0, mkN [Some xr_a] [mkV 2 None] []); (1, mkN [Some xr_a] [mkV 3 None] [])]
+       [xr_a; xr_f] [] 4 0 11 (mkSc 1 [(0, 0); (1, 1)] []).
+Example cross_root_clone :
+  snd (clone xr_h0 false false) = Raise RuntimeError /\ snd (clone xr_h0 true true) = Raise RuntimeError
+  /\ snd (clone (run xr_h0 [OReplaceInput 1 0 (Some xr_f)]) false false) = Ok tt.
+Proof. vm_compute. repeat split. Qed.
